@@ -911,6 +911,9 @@ func Run(sc Scenario, work string, hk Hooks) (*Obs, error) {
 		if a.proc != nil {
 			lastScrape = a.GatherMetrics()
 		}
+		if os.Getenv("VERIF_DEBUG") != "" {
+			fmt.Fprintf(os.Stderr, "DEBUG stop requested %s gen%d\n", time.Now().Format("05.000000"), gi)
+		}
 		close(stoppingCh)
 		done := make(chan struct{})
 		go func() {
